@@ -20,7 +20,9 @@ Band(s, e) ==      \* the query touches a lanelet boundary without meeting its i
     CASE e.op = "find_pos"   -> MustByPos(s.net, <<e.arg[1], e.arg[2]>>) # FindByPos(s.net, <<e.arg[1], e.arg[2]>>)
       [] e.op = "find_shape" -> MustByShape(s.net, <<e.arg[1], e.arg[2]>>, <<1, 1>>) # FindByShape(s.net, <<e.arg[1], e.arg[2]>>, <<1, 1>>)
       [] OTHER -> FALSE
-IsQuery(op) == op \in {"occ", "state", "find_pos", "find_shape", "light", "polygon", "distance"}
+(* occ2 / state2: the same queries on a SECOND obstacle (not in the scenario, never mutated) whose trajectory was built *)
+(* from the very state-list object of the first one; judged by the fresh-twin comparison only (clause C11.Fresh)       *)
+IsQuery(op) == op \in {"occ", "state", "find_pos", "find_shape", "light", "polygon", "distance", "occ2", "state2"}
 
 Want(s, e) ==      \* <<decidable by the lattice model, expected answer equals logged answer>>
     CASE e.op = "occ"        -> <<TRUE, {Pair(p) : p \in Range(e.res)} = OccAt(s.ob, e.arg[1])>>
